@@ -6,6 +6,10 @@ CONSTANTS
   AtomicSlot = FALSE
   Paths = {p1, p2, p3, p4, p5, p6}
   OncePerPath = TRUE
+  FirstOnly = TRUE
+  WriterIsMover = TRUE
+  MaxGen = 4
+  AppendFirst = FALSE
 INVARIANT NoLostBackup
 INVARIANT SlotsDistinct
 INVARIANT RestoreGivesOldest
